@@ -317,15 +317,68 @@ func (vc *VC) loopHead(fr *Frame, li *loopInfo, cur *State, ins []edgeState) *St
 		}
 		sort.Strings(names)
 		for _, n := range names {
-			vc.heapSorts[n] = mods.heap[n]
-			st.heap[n] = vc.sc.fresh("lh", mods.heap[n])
+			srt := mods.heap[n]
+			if !mods.whole[n] && len(mods.roots[n]) > 0 && len(mods.roots[n]) <= 4 {
+				// every write in the loop goes through a few pointers/slices computed before the loop:
+				// only those objects (arrays) are havocked
+				var refs []string
+				ok := true
+				for _, r := range mods.roots[n] {
+					var v Val
+					if al, isCell := r.(*ssa.Alloc); isCell {
+						// a local variable that the loop does not assign
+						c := fr.cellOf[al]
+						cv, live := st.cells[c]
+						if c == nil || !live || mods.allocs[al] || li.body[al.Block()] {
+							ok = false
+							break
+						}
+						v = cv
+					} else {
+						var has bool
+						v, has = fr.regs[r]
+						if _, isParam := r.(*ssa.Parameter); !has && !isParam {
+							ok = false
+							break
+						}
+						if !has {
+							v = vc.value(fr, r)
+						}
+					}
+					switch {
+					case v.K == KSlice:
+						refs = append(refs, v.Sl[0])
+					case v.K == KPtr && v.L != nil && (v.L.Kind == locObj || v.L.Kind == locArr) && len(v.L.Path) == 0:
+						refs = append(refs, v.L.Ref)
+					default:
+						ok = false
+					}
+				}
+				if ok && li.header.Dominates(li.header) && rootsOutsideLoop(mods.roots[n], li) {
+					h := vc.heapGet(st, n, srt)
+					_, args, _ := splitArgs(srt)
+					for _, ref := range refs {
+						h = store(h, ref, vc.sc.fresh("lhe", args[1]))
+					}
+					vc.heapSorts[n] = srt
+					st.heap[n] = vc.sc.define("lh", srt, h)
+					continue
+				}
+			}
+			vc.heapSorts[n] = srt
+			st.heap[n] = vc.sc.fresh("lh", srt)
 		}
 		nn := vc.sc.fresh("next", sortRef)
 		vc.sc.assert(sx(">=", nn, st.next))
 		st.next = nn
 	}
+	mods.ghost[fmt.Sprintf("visited%d", li.ordinal)] = true
 	for g := range mods.ghost {
 		if old, ok := st.ghost[g]; ok {
+			if old.K == KGhost {
+				st.ghost[g] = Val{K: KGhost, GSort: old.GSort, S: vc.sc.fresh("lg."+g, old.GSort)}
+				continue
+			}
 			nv, _ := vc.symbolic(old.T, "lg."+g)
 			st.ghost[g] = nv
 		}
@@ -464,14 +517,35 @@ type modSet struct {
 	heap   map[string]string // heap var -> sort
 	ghost  map[string]bool
 	all    bool
+	// roots[h]: the SSA values (object pointers / slices) through which heap var h is written in the
+	// loop; whole[h] is set when some write goes through an unknown root
+	roots map[string][]ssa.Value
+	whole map[string]bool
+	cur   ssa.Value // root of the store being recorded (nil = unknown)
+	top   bool
 }
 
 func newModSet() *modSet {
-	return &modSet{allocs: map[*ssa.Alloc]bool{}, heap: map[string]string{}, ghost: map[string]bool{}}
+	return &modSet{allocs: map[*ssa.Alloc]bool{}, heap: map[string]string{}, ghost: map[string]bool{}, roots: map[string][]ssa.Value{}, whole: map[string]bool{}}
+}
+
+func (ms *modSet) record(name, sort string) {
+	ms.heap[name] = sort
+	if ms.cur == nil || !ms.top {
+		ms.whole[name] = true
+		return
+	}
+	for _, r := range ms.roots[name] {
+		if r == ms.cur {
+			return
+		}
+	}
+	ms.roots[name] = append(ms.roots[name], ms.cur)
 }
 
 func (vc *VC) loopMods(fr *Frame, li *loopInfo) *modSet {
 	ms := newModSet()
+	ms.top = true
 	for b := range li.body {
 		vc.modsOfBlock(b, ms, fr.depth, map[*ssa.Function]bool{fr.fn: true})
 	}
@@ -484,9 +558,9 @@ func addHeapLeaves(ms *modSet, base types.Type, prefix string, t types.Type, ele
 			continue
 		}
 		if elemMode {
-			ms.heap[elemHeap(base, prefix+lf.path)] = arraySort(sortRef, arraySort(sortIdx, lf.sort))
+			ms.record(elemHeap(base, prefix+lf.path), arraySort(sortRef, arraySort(sortIdx, lf.sort)))
 		} else {
-			ms.heap[fieldHeap(base, prefix+lf.path)] = arraySort(sortRef, lf.sort)
+			ms.record(fieldHeap(base, prefix+lf.path), arraySort(sortRef, lf.sort))
 		}
 	}
 }
@@ -539,23 +613,34 @@ func (vc *VC) modsOfBlock(b *ssa.BasicBlock, ms *modSet, depth int, seen map[*ss
 				ms.all = true
 				continue
 			}
+			ms.cur = root
+			if ld, isLoad := root.(*ssa.UnOp); isLoad && ld.Op == token.MUL {
+				// the pointer/slice is read from a local variable: the variable itself is the root
+				if al, ok := ld.X.(*ssa.Alloc); ok && !allocEscapes(al) {
+					ms.cur = al
+				}
+			}
 			if al, isAlloc := root.(*ssa.Alloc); isAlloc && !elem {
 				ms.allocs[al] = true
 				// if the alloc escapes its content lives on the heap
-				bt := al.Type().Underlying().(*types.Pointer).Elem()
-				if base == nil {
-					base = bt
+				if allocEscapes(al) && !appendOperandOnly(al) {
+					bt := al.Type().Underlying().(*types.Pointer).Elem()
+					if base == nil {
+						base = bt
+					}
+					addHeapLeaves(ms, bt, prefix, in.Val.Type(), false)
+					if _, isArr := bt.Underlying().(*types.Array); isArr {
+						addHeapLeaves(ms, bt.Underlying().(*types.Array).Elem(), "", in.Val.Type(), true)
+					}
 				}
-				addHeapLeaves(ms, bt, prefix, in.Val.Type(), false)
-				if _, isArr := bt.Underlying().(*types.Array); isArr {
-					addHeapLeaves(ms, bt.Underlying().(*types.Array).Elem(), "", in.Val.Type(), true)
-				}
+				ms.cur = nil
 				continue
 			}
 			if base == nil {
 				base = in.Addr.Type().Underlying().(*types.Pointer).Elem()
 			}
 			addHeapLeaves(ms, base, prefix, in.Val.Type(), elem)
+			ms.cur = nil
 		case *ssa.MapUpdate:
 			vc.addMapMods(ms, in.Map.Type())
 		case *ssa.Call:
@@ -648,9 +733,12 @@ func (vc *VC) modsOfCall(c *ssa.CallCommon, ms *modSet, depth int, seen map[*ssa
 		return
 	}
 	seen[callee] = true
+	wasTop := ms.top
+	ms.top = false
 	for _, b := range callee.Blocks {
 		vc.modsOfBlock(b, ms, depth+1, seen)
 	}
+	ms.top = wasTop
 	delete(seen, callee)
 }
 
@@ -1328,13 +1416,31 @@ func (vc *VC) inlineAsserts(fr *Frame, st *State, ins ssa.Instruction, fired map
 		return
 	}
 	pos := vc.pos(ins.Pos())
-	line := vc.eng.lineText(pos)
+	line := vc.eng.lineTextFull(pos)
 	for i, cl := range fr.con.Asserts {
 		if fired[cl] || !strings.Contains(line, cl.Match) {
 			continue
 		}
 		fired[cl] = true
+		if vc.firedAnchors == nil {
+			vc.firedAnchors = map[*Clause]bool{}
+		}
+		vc.firedAnchors[cl] = true
 		env := vc.localEnv(fr, st)
+		if strings.HasPrefix(cl.Kind, "ghostset:") {
+			name := strings.TrimPrefix(cl.Kind, "ghostset:")
+			v := env.eval(cl.Expr)
+			old, ok := st.ghost[name]
+			if env.err != nil || !ok {
+				vc.unsupported("ghostset %s at %q: %v", name, cl.Match, env.err)
+				continue
+			}
+			if v.K == KConst {
+				v = vc.convert(st, v, old.T, token.Position{})
+			}
+			st.ghost[name] = v
+			continue
+		}
 		t := env.evalBool(cl.Expr)
 		if env.err != nil {
 			vc.unsupported("%s at %q: %v", cl.Kind, cl.Match, env.err)
@@ -1435,4 +1541,25 @@ func appendOperandOnly(a *ssa.Alloc) bool {
 		}
 	}
 	return slices == 1
+}
+
+// rootsOutsideLoop: all root values are defined outside the loop body (so they denote the same
+// objects in every iteration).
+func rootsOutsideLoop(roots []ssa.Value, li *loopInfo) bool {
+	for _, r := range roots {
+		switch r := r.(type) {
+		case *ssa.Parameter, *ssa.Global, *ssa.FreeVar:
+		case *ssa.Alloc:
+			if li.body[r.Block()] {
+				return false
+			}
+		case ssa.Instruction:
+			if li.body[r.Block()] {
+				return false
+			}
+		default:
+			return false
+		}
+	}
+	return true
 }
